@@ -4,7 +4,7 @@ from .. import common, gen, pool, pipefam, readerfam
 
 RULE = ("sets of 1-8 chromosome names from pools designed around file-name sorting (Chr1..Chr12, prefix families Chr1/Chr10/Chr1_A/Chr1-alt, "
         "punctuation on both sides of '.' and '_', digits, case pairs, stems ending in '5' / 'h' / '.' / '.h5') -> real result directories produced by the library stages -> both "
-        "directory-level constructors with DensityData.__init__ wrapped (from the harness) to record which gene annotation each result "
+        "directory-level constructors and the reader example examples/general_read_density_data.py run as a script with DensityData.__init__ wrapped (from the harness) to record which gene annotation each result "
         "file received, the served contents compared with the raw file of the paired chromosome; directories made to mismatch (equal counts incl. one file vs one "
         "annotation, unequal counts, the file without annotation last in the directory, a result file storing two chromosomes; every third name set with plus-strand genes only) must be refused; "
         "unit level: the translated _pair_by_chromosome against the real function on real HDF5 files storing 0-3 identifiers and GeneData lists with duplicates / unknown chromosomes; non-trivial = name set whose sorted .h5 order differs from its sorted _GeneData.tsv order; distinct = name set")
@@ -28,6 +28,8 @@ def pair_failures(case, rep, steps):
         how = st["how"]
         mismatch = bool(st.get("tamper")) and (sorted(st["tamper"].get("drop_results", [])) != sorted(st["tamper"].get("drop_genedata", [])) or bool(st["tamper"].get("multi_id")))
         if so.get("error"):
+            # the regex constructor and the example script apply the CALLER's pattern "<genome>_(.*?).h5" to the file names: with names such as
+            # "Ch.h5" it extracts other identifiers and refuses - an explicit error, nothing C16 forbids
             if how == "dir" and not mismatch:
                 fails.append({"kind": "valid_directory_refused", "constructor": how, "error": so["error"]})
             continue
@@ -37,7 +39,7 @@ def pair_failures(case, rep, steps):
             if h5name[2:-3] != gchrom:
                 fails.append({"kind": "combined_different_chromosomes", "constructor": how, "result_file": h5name, "gene_annotation_of": gchrom})
         # what was actually served: the stored chromosome id and the contents must be those of the paired chromosome
-        if not mismatch:
+        if not mismatch and how != "example":
             if sorted(l["chrom"] for l in so["loaded"]) != sorted(p[1] for p in so["pairs"]):
                 fails.append({"kind": "served_chromosomes_differ_from_paired", "constructor": how, "served": [l["chrom"] for l in so["loaded"]],
                               "paired": [p[1] for p in so["pairs"]]})
@@ -117,7 +119,7 @@ def run(chk):
     steps_of = []
     for c, names in sessions:
         chs = sorted(set(g["chrom"] for g in c["genes"]))
-        steps = [{"how": "dir"}, {"how": "regex"}]
+        steps = [{"how": "dir"}, {"how": "regex"}, {"how": "example"}]      # "example": examples/general_read_density_data.py run as a script
         # mismatching directories: equal counts with different sets (incl. exactly one file / one annotation), unequal counts
         if len(chs) >= 2:
             a, b = r.sample(chs, 2)
@@ -135,6 +137,7 @@ def run(chk):
             # a result file that stores two chromosomes, next to ordinary files
             steps.append({"how": "dir", "tamper": {"multi_id": [a, b]}})
             steps.append({"how": "regex", "tamper": {"multi_id": [b, a]}})
+            steps.append({"how": "example", "tamper": {"drop_results": [a]}})      # fewer result files than chromosomes in the annotation
         steps_of.append(steps)
     reps = pool.run_requests([{"op": "reader.session", "case": c, "steps": st} for (c, _), st in zip(sessions, steps_of)], timeout=300)
     # model: ids = rank of the chromosome name; pair_by_id on the ids
